@@ -8,7 +8,7 @@
  * such call (K >= 1):
  *    kill : SIGKILL to every traced task before the call executes (the call is
  *           skipped by the kernel: fatal signal pending at syscall-enter-stop);
- *    int  : SIGINT to the process; the call completes, then the signal is delivered;
+ *    int  : SIGINT to the calling thread; the call completes, then the signal is delivered;
  *    none : nothing (dry run, K ignored).
  * The log gets one line per counted call: "<idx> <tid> <nr> <path-or-dash> <arg0> <arg1> <arg2> <arg3>",
  * "RET <idx> <tid> <value>" when the call returns, "ACT kill|int" when the action fires, and a
@@ -177,7 +177,9 @@ int main(int argc, char** argv)
                                 for (i = 0; i < ntasks; i++) kill(tasks[i], SIGKILL);
                                 fprintf(lg, "ACT kill\n"); fflush(lg);
                             } else if (!strcmp(action, "int")) {
-                                kill(child, SIGINT);
+                                /* directed at the thread that makes the call: INThandler then runs on that thread
+                                 * and never returns, as in the model (handler = atomic step) */
+                                syscall(SYS_tgkill, child, p, SIGINT);
                                 fprintf(lg, "ACT int\n"); fflush(lg);
                             }
                         }
